@@ -213,6 +213,9 @@ pub struct IoRec {
     /// Input bytes read after the injected stop event (None: none injected).
     #[serde(default)]
     pub input_bytes_after_stop: Option<u64>,
+    /// Failed writes to stdout by the thread whose write failed first.
+    #[serde(default)]
+    pub stdout_failed_writes_first_thread: u64,
 }
 
 #[derive(Serialize, Deserialize, Clone, Debug)]
